@@ -68,13 +68,18 @@ def okCounts (n : Nat) (o : Obs) : Bool :=
   o.active == o.control + o.tunnel &&
   o.la == (List.range n).filter (fun c => authB (o.connAt c))
 
+/-- every other spelling of a lookup or counter answers what the primary one answers -/
+def okAlt (o : Obs) : Bool :=
+  o.altList == o.count && o.altConns == o.total && o.altActive == o.active &&
+  o.ifc == o.cl.map ifcOf && o.gid == o.cn.map gidOf
+
 def holdsWith (n m : Nat) (pendOK gone evicted : Nat → Bool) (o : Obs) : Bool :=
   o.cl.length == m && o.cn.length == n &&
   (List.range m).all (fun i => okClient n pendOK gone o (i + 1)) &&
   injective m o &&
   (List.range n).all (fun c => !gone c || okGone o c) &&
   (List.range n).all (fun c => !evicted c || (o.connAt c).closed) &&
-  okCounts n o
+  okCounts n o && okAlt o
 
 /-- The property for a sequential history (possibly ending while handshakes are in flight:
 for those connections the identity clause is relaxed unless `strict`). -/
@@ -86,6 +91,16 @@ def holds (n m cap : Nat) (ops : List Op) (strict : Bool) (o : Obs) : Bool :=
 `DisconnectClientIfMatch` must not change what the lookups and counters answer. -/
 def holdsF (n m cap : Nat) (fops : List FOp) (strict : Bool) (o : Obs) : Bool :=
   holds n m cap (fops.map Prod.fst) strict o
+
+/-- The property for a history driven through the adapters' read loops.  Here "closed or evicted"
+needs no bookkeeping of the history: every opened connection whose transport is (observed) closed
+or was broken by the peer, and whose loop is not inside a handshake, must be completely gone —
+no lookup returns it, SessionManager no longer tracks it, it is counted nowhere. -/
+def holdsAdp (n m cap : Nat) (fops : List FOp) (o : Obs) : Bool :=
+  holdsWith n m (pendSyn (fops.map Prod.fst))
+    (fun c => decide (c < n) && ((o.connAt c).closed || (runAdp .repaired (init n cap) fops).broken c) &&
+              (runAdp .repaired (init n cap) fops).opened c && !pendSyn (fops.map Prod.fst) c)
+    (runAdp .repaired (init n cap) fops).evicted o
 
 /-- The strict property on a history with the finer kick steps (used only to state the recorded
 finding `evict-close-window`; no `accept … close` bookkeeping is needed there). -/
